@@ -367,6 +367,10 @@ func (t *trzszTransfer) sendLine(typ string, buf string) error {
 }
 
 func (t *trzszTransfer) stripTmuxStatusLine(buf []byte) []byte {
+	return stripTmuxStatusLine(buf)
+}
+
+func stripTmuxStatusLine(buf []byte) []byte {
 	for {
 		beginIdx := bytes.Index(buf, []byte("\x1bP="))
 		if beginIdx < 0 {
